@@ -5,8 +5,8 @@ import RomeaProofs.Properties.C14
 # Bridge C14, part 2: statements of `Properties/C14.lean` restated about the functions translated from today's source
 (`Romea.Src.C14.*`, regenerated from `/repo` on every run).  They hold for EVERY scalar type (in particular `Float`, `Float32`, ℝ), like the
 theorems they restate (`history_independent` / `fresh_eq`, `coincident`, the single-step core of `counted_face_adjacent`).
-The whole-chain theorems (`length`, `in_bounds`, `ends_at_end`, …) are about `cast()`, whose `while (++n != N)` loop over a vector of
-index vectors is not translated: they remain tied to the code by the correspondence check only.
+The whole-chain theorems (`length`, `face_adjacent`, `in_bounds`, `ends_at_end`, `history_independent` of a whole `cast`) are restated about
+the translated `cast` overloads in `Bridge/C14Cast.lean` / `Bridge/C14CastCor.lean`.
 -/
 set_option linter.unusedSectionVars false
 
